@@ -546,7 +546,8 @@ def r11_3_pyyaml_tables(ctx, rid='R11.3'):
     n_reg = 0
     for fi in P.yatiml_functions():
         for n in walk_function(fi.node):
-            if isinstance(n, ast.Call) and isinstance(n.func, ast.Attribute) and n.func.attr in ('add_constructor', 'add_representer'):
+            if isinstance(n, ast.Call) and isinstance(n.func, ast.Attribute) and n.func.attr in (
+                    'add_constructor', 'add_representer', 'add_multi_representer', 'add_multi_constructor'):
                 n_reg += 1
                 recv = n.func.value
                 rc = P.resolve_expr(fi.module, recv, fi)
